@@ -913,6 +913,28 @@ def _():
     return [s1, s2, s3a, s3b, s3, s4, s5, fin]
 
 
+@proof('pdax', 'EcloP-by-singletons')
+def _():
+    P = SV(REC('PDA'), Const('P_', T.PDAs)); R = Const('R_', T.SetC); c, c0, c2, c3 = Consts('c_ c0_ c2_ c3_', T.Conf)
+    Tt = Const('T_', T.SetC)
+    defT = ForAll([c2], Select(Tt, c2) == Exists([c3], And(Select(R, c3), Select(T.EcloP(P.z, T.csingle(c3)), c2))))
+    return [('<=', [T.EcloP_least(P, T.csingle(c0), T.EcloP(P.z, R)), Select(R, c0), Select(T.EcloP(P.z, T.csingle(c0)), c)], Select(T.EcloP(P.z, R), c)),
+            ('=>', [defT, T.EcloP_least(P, R, Tt), Select(T.EcloP(P.z, R), c)], Select(Tt, c))]
+
+
+@proof('pdax', 'reachP-step-pw')
+def _():
+    P = SV(REC('PDA'), Const('P_', T.PDAs)); w = Const('w_', Word); a = _a_; c, r, c2 = Consts('c_ r_ c2_', T.Conf)
+    Rw = T.reachP(P.z, w); lhs = Select(T.reachP(P.z, Word.snoc(w, a)), c)
+    S = T.stepsetP(P.z, Rw, a)
+    bs = ForAll([c], Select(T.EcloP(P.z, S), c) == Exists([c2], And(Select(S, c2), Select(T.EcloP(P.z, T.csingle(c2)), c))))
+    bs2 = ForAll([r, c], Select(T.EcloP(P.z, T.stepsetP(P.z, T.csingle(r), a)), c) == Exists([c2], And(Select(T.stepsetP(P.z, T.csingle(r), a), c2), Select(T.EcloP(P.z, T.csingle(c2)), c))))
+    st = ForAll([c2], Select(S, c2) == Exists([r], And(Select(Rw, r), Select(T.stepsetP(P.z, T.csingle(r), a), c2))))
+    rhs = Exists([r], And(Select(Rw, r), Select(T.EcloP(P.z, T.stepsetP(P.z, T.csingle(r), a)), c)))
+    return [('by-singletons', [], bs), ('by-singletons-2', [], bs2), ('stepset', [], st), ('fwd', [bs, bs2, st, lhs], rhs), ('bwd', [bs, bs2, st, rhs], lhs),
+            ('both', [Implies(lhs, rhs), Implies(rhs, lhs)], lhs == rhs)]
+
+
 def int_ind(P, lo=0):
     """induction on an integer >= lo: P(lo) and (j >= lo and P(j)) => P(j+1)"""
     j = fresh_z('j', z3.IntSort())
